@@ -199,7 +199,7 @@ pub fn run(rep: &Report) -> serde_json::Value {
         }
     }
     // single larger messages and the cap
-    for (mode, prefix, sizes) in [(FrameMode::Handshake, 2usize, vec![255usize, 256, 65535]), (FrameMode::Distribution, 4usize, vec![255, 256, 65535, 65536, 1 << 20])] {
+    for (mode, prefix, sizes) in [(FrameMode::Handshake, 2usize, vec![127usize, 128, 255, 256, 257, 511, 512, 513, 1023, 1024, 1025, 4095, 4096, 4097, 32767, 32768, 65534, 65535]), (FrameMode::Distribution, 4usize, vec![127, 128, 255, 256, 257, 511, 512, 513, 1023, 1024, 1025, 4095, 4096, 4097, 65535, 65536, 65537, 1 << 20])] {
         #[allow(unused_mut)] let mut framer = MessageFramer::new(mode);
         for sz in sizes {
             rep.add("evaluations", 1);
